@@ -48,6 +48,11 @@ def shift1d(ctx, rng, idx):
     tw = gen.Spec(spec.mname, spec.mparams, spec.faces, spec.rname, spec.flux, spec.bcL, spec.bcR, [np.roll(p, k) for p in spec.prim], section=(lambda x: 1.0 + 0 * x) if spec.mname == "nozzle" else None)
     spec.section = tw.section
     model, mesh, disc, f = spec.build()
+    used_before = bool(n >= 2 and rng.random() < 0.3)
+    if used_before:
+        # history: the scheme and model objects of the problem were used before on a stretched mesh of the same size, length and origin
+        gen.use_on_stretched_twin_mesh(rng, model, mesh, disc.num, spec.flux, spec.prim, spec.bcL, spec.bcR)
+        ctx.ev("scheme-used-before-on-a-stretched-mesh-of-the-same-size")
     share = bool(rng.random() < 0.5)        # the rolled twin reuses the scheme and model objects of the original problem
     model2, mesh2, disc2, f2 = tw.build(num=disc.num if share else None, model=model if share else None)
     cfl = float(rng.uniform(0.1, 0.4) if not implicit else rng.uniform(0.2, 1.5))
